@@ -1,4 +1,5 @@
 import DclabModel.Model.Emod
+import DclabModel.Model.EmodMem
 import DclabModel.DriveUtil
 /-! Line-protocol driver for the Young's-modulus model (C05).  Exact rationals `p/q` only.
 
@@ -23,6 +24,13 @@ import DclabModel.DriveUtil
     env reg <id> <path>             `register_lut`                                  → ok | err:value
     env dereg <id>                  `EXTERNAL_LUTS.pop`                                     → ok
     env load path <p> | id <i>      token of the table a call would load now     → token | err:value
+  Memory model (`Model/EmodMem.lean`):
+    mem scale <feat> <f64|f32|int> <inplace 0|1> <Lin> <Lout> <Qin> <Qout> <ηin> <s|a> <n> v₁ … vₙ η [η …]
+                                    `scaleFeatureMem` on the heap `[array]`
+                → ok <same|new> <dtype> <returned values ,> <caller's array afterwards ,> | err:value | err:type | err:key
+    mem prog <copy 0|1> <px 0|1> <routeB 0|1>
+                                    `emodProg`: caller-visible arrays it updates (0 = abscissa, 1 = deform,
+                                    2 = LUT array) and whether it is `Owned 3`   → owned|leaks <refs , | ->
 -/
 open DclabModel.Emod DclabModel.DriveUtil
 
@@ -138,9 +146,57 @@ def handleEnv (d : D) : List String → D × String
     | none => (d, "bad-op")
   | _ => (d, "bad-op")
 
+def parseDT : String → Option DT
+  | "f64" => some .f64
+  | "f32" => some .f32
+  | "int" => some .int
+  | _ => none
+
+def showDT : DT → String
+  | .f64 => "f64"
+  | .f32 => "f32"
+  | .int => "int"
+
+def parseFeat : String → Feat
+  | "area_um" => .areaUm
+  | "deform" => .deform
+  | "circ" => .circ
+  | "emodulus" => .emodulus
+  | "volume" => .volume
+  | _ => .other
+
+def showVals (l : List Rat) : String := if l.isEmpty then "-" else joinWith "," (l.map showRat)
+
+def handleMem : List String → String
+  | "scale" :: ft :: dt :: ip :: lin :: lout :: qin :: qout :: ein :: kind :: n :: ws =>
+    match parseDT dt, parseRat? lin, parseRat? lout, parseRat? qin, parseRat? qout, parseRat? ein,
+          n.toNat?, parseRats ws with
+    | some dt, some lin, some lout, some qin, some qout, some ein, some n, some ws =>
+      let vs := ws.take n
+      let es := ws.drop n
+      let eout : EtaOut := if kind == "a" then .perEvent es else .scalar (es.headD 0)
+      let H : Heap := [⟨dt, vs⟩]
+      match scaleFeatureMem (parseFeat ft) H 0 lin lout qin qout ein eout (ip == "1") with
+      | .error .value => "err:value"
+      | .error .type => "err:type"
+      | .error .key => "err:key"
+      | .ok (H', r') =>
+        match H'[r']?, H'[0]? with
+        | some out, some caller =>
+          s!"ok {if r' == 0 then "same" else "new"} {showDT out.dt} {showVals out.data} {showVals caller.data}"
+        | _, _ => "err:key"
+    | _, _, _, _, _, _, _, _ => "bad-op"
+  | ["prog", c, px, rb] =>
+    let prog := emodProg (c == "1") (px == "1") (rb == "1") (fun _ l => l)
+    let upd := callerVisibleUpdates 3 prog
+    let owned := if decide (Owned 3 prog) then "owned" else "leaks"
+    s!"{owned} {if upd.isEmpty then "-" else showNats upd}"
+  | _ => "bad-op"
+
 def handle (d : D) (line : String) : D × String :=
   match words line with
   | "env" :: rest => handleEnv d rest
+  | "mem" :: rest => (d, handleMem rest)
   | ["lut", l0, q0, e0, k] =>
     match parseRat? l0, parseRat? q0, parseRat? e0, k.toNat? with
     | some l0, some q0, some e0, some k =>
